@@ -22,7 +22,11 @@ EXPLANATION = (
     "depth, is_root, ...) read only the parent direction of the links, the subtree attributes (descendants, leaves, height, "
     "size, is_leaf) only the children direction, transitively through getters and iterators. N2 structural definitional checks that are shape-independent: is_root "
     "tests the parent against None by identity, is_leaf tests emptiness of the children list, siblings/ancestors return () "
-    "for a root. Not decided: that height, depth, siblings, commonancestors … compute the right value."
+    "for a root. N4 util.commonancestors reads exactly the `ancestors` chain of every argument. N5 siblings are assembled from the "
+    "parent's children in their stored order (no sort/reverse/set on the way). N6 no deferred computation (lambda, generator "
+    "expression, nested function) that outlives a loop captures a variable the loop rebinds, and no loop variable is read after "
+    "its loop as if it were the last element. N7 descendants/leaves keep the order of PreOrderIter(self) (no reordering call "
+    "on the way to the returned tuple). Not decided: that height, depth, siblings, commonancestors … compute the right value."
 )
 ASSUMPTIONS = ["user node classes do not define the navigation names themselves", "getattr/len/tuple/reversed/enumerate/zip/max are pure"]
 UTIL = "anytree/util/__init__.py"
